@@ -1129,6 +1129,11 @@ class Interp:
             return v & 0xFF
         if v is not None:
             return v
+        mem = getattr(self, "memory", None)
+        if mem is not None:
+            v2 = mem(base, off, 1)
+            if v2 is not None:
+                return v2           # the oracle knows this byte: nothing stored at a lower offset covers it
         for back in range(1, 8):
             w = self.heap.get((base, off - back)) if self.heap is not None else None
             if isinstance(w, int):
@@ -1138,11 +1143,6 @@ class Interp:
         for zb, lo, hi in getattr(self, "zeroed", ()):
             if zb == base and lo <= off < hi:
                 return 0
-        mem = getattr(self, "memory", None)
-        if mem is not None:
-            v2 = mem(base, off, 1)
-            if v2 is not None:
-                return v2
         return U
 
     def ev_lhs_effects(self, lhs, env, fn, depth):
